@@ -1,1 +1,6 @@
 pub mod conc;
+pub mod tryfam;
+pub mod seqfam;
+pub mod orderfam;
+pub mod dupfam;
+pub mod nonacqfam;
